@@ -348,8 +348,8 @@ pub fn attribute(orig: &Database, rt: &dyn Fn(&Database) -> Result<Database, Str
             }
         }
     }
-    // 2. single values
-    let mut seen: Vec<String> = Vec::new();
+    // 2. single values, alone
+    let mut seen: Vec<(ColumnSchema, SqlValue)> = Vec::new();
     for n in &names {
         let Some(t) = orig.get_table(n) else { continue };
         for r in t.scan() {
@@ -358,24 +358,49 @@ pub fn attribute(orig: &Database, rt: &dyn Fn(&Database) -> Result<Database, Str
                     continue;
                 }
                 let c = &t.schema.columns[j];
-                let key = format!("{:?}/{}", c.data_type, engine::val_text(v));
-                if seen.contains(&key) {
+                if seen.iter().any(|(sc, sv)| sc.data_type == c.data_type && engine::val_text(sv) == engine::val_text(v)) {
                     continue;
                 }
-                seen.push(key);
-                let Ok(db) = single_col_db(c, Some(v)) else { continue };
-                let cls = ty_class(&c.data_type);
-                let feat = features(v)[0];
-                let shown = format!("{} in a column of type {:?}", engine::val_text(v), c.data_type);
-                match rt(&db) {
-                    Err(e) => return Some(Culprit { sig: format!("value.{}.{}.load_error", cls, feat), detail: format!("a one-row table holding {} does not load: {}", shown, truncate(&e, 600)) }),
-                    Ok(l) => {
-                        if let Some(d) = diff_tables(&snapshot(&db), &snapshot(&l)) {
-                            let after = l.get_table("X").and_then(|t| t.scan().first().map(|r| r.values.clone())).unwrap_or_default();
-                            let effect = if d.kind == "rows.count" { "row_count" } else { value_effect(v, after.first()) };
-                            return Some(Culprit { sig: format!("value.{}.{}.{}", cls, feat, effect), detail: format!("a one-row table holding {}: {}", shown, d.detail) });
-                        }
-                    }
+                seen.push((c.clone(), v.clone()));
+            }
+        }
+    }
+    for (c, v) in &seen {
+        let Ok(db) = single_col_db(c, Some(v)) else { continue };
+        let cls = ty_class(&c.data_type);
+        let feat = features(v)[0];
+        let shown = format!("{} in a column of type {:?}", engine::val_text(v), c.data_type);
+        match rt(&db) {
+            Err(e) => return Some(Culprit { sig: format!("value.{}.{}.load_error", cls, feat), detail: format!("a one-row table holding {} does not load: {}", shown, truncate(&e, 600)) }),
+            Ok(l) => {
+                if let Some(d) = diff_tables(&snapshot(&db), &snapshot(&l)) {
+                    let after = l.get_table("X").and_then(|t| t.scan().first().map(|r| r.values.clone())).unwrap_or_default();
+                    let effect = if d.kind == "rows.count" { "row_count" } else { value_effect(v, after.first()) };
+                    return Some(Culprit { sig: format!("value.{}.{}.{}", cls, feat, effect), detail: format!("a one-row table holding {}: {}", shown, d.detail) });
+                }
+            }
+        }
+    }
+    // 3. single values followed by other statements: the value twice in X, then a second table Y
+    for (c, v) in &seen {
+        let Ok(mut db) = single_col_db(c, Some(v)) else { continue };
+        if db.insert_row("X", Row::new(vec![v.clone()])).is_err() {
+            continue;
+        }
+        let y = ColumnSchema { name: "K".into(), data_type: vibesql_types::DataType::Integer, nullable: true, default_value: None };
+        if db.create_table(TableSchema::new("Y".into(), vec![y])).is_err() || db.insert_row("Y", Row::new(vec![SqlValue::Integer(7)])).is_err() {
+            continue;
+        }
+        let cls = ty_class(&c.data_type);
+        let feat = features(v)[0];
+        let shown = format!("{} in a column of type {:?}", engine::val_text(v), c.data_type);
+        let what = "table X holding the value in two rows, followed by table Y (K INTEGER) with one row";
+        match rt(&db) {
+            Err(e) => return Some(Culprit { sig: format!("value.{}.{}.breaks_following_statements", cls, feat), detail: format!("{} = {}: does not load: {}", what, shown, truncate(&e, 600)) }),
+            Ok(l) => {
+                if let Some(d) = diff_tables(&snapshot(&db), &snapshot(&l)) {
+                    let effect = "breaks_following_statements";
+                    return Some(Culprit { sig: format!("value.{}.{}.{}", cls, feat, effect), detail: format!("{} = {}: {}", what, shown, d.detail) });
                 }
             }
         }
@@ -411,7 +436,7 @@ fn value_effect(before: &SqlValue, after: Option<&SqlValue>) -> &'static str {
         return "changed";
     }
     if let (SqlValue::Character(a) | SqlValue::Varchar(a), SqlValue::Character(b) | SqlValue::Varchar(b)) = (before, after) {
-        if a.trim_end() == b.trim_end() {
+        if a.trim_end_matches(' ') == b.trim_end_matches(' ') {
             return "padding";
         }
     }
